@@ -54,7 +54,8 @@ def _get_all_connection_axes(connections, facedim):
     all_axes = []
     for c in connections[facedim].values():
         all_axes.extend(list(c.keys()))
-    return list(set(all_axes))
+    # sorted: the result must not depend on set iteration order (hash seed) nor on table order
+    return sorted(set(all_axes))
 
 
 def _strip_all_coords(obj: xr.DataArray):
@@ -98,7 +99,7 @@ def _pad_face_connections(
 
     # Detect all the axes we have to deal with during padding
     # all the axes defined in the connections + the axes of the padding width should give all axes we need to iterate over
-    pad_axes = list(
+    pad_axes = sorted(
         set(_get_all_connection_axes(connections, facedim) + list(padding_width.keys()))
     )
 
